@@ -793,6 +793,11 @@ def sc_flatten(P):
             out.append(('%d-d, reverse=True of %s' % (nd, [dims[0]]), lambda mk=mk, dims=dims: ([mk(), (dims[0],)], {'reverse': True}, OPTS(P))))
             out.append(('%d-d, unknown keyword' % nd, lambda mk=mk, dims=dims: ([mk(), tuple(dims)], {'bogus': 1}, OPTS(P))))
             out.append(('%d-d, unknown dimension' % nd, lambda mk=mk: ([mk(), ('a', 'zz')], {}, OPTS(P))))
+    # a set has no order of its own: the dimensions are grouped in the order of the array (the interpreter iterates a set in sorted order: here that is not the array's)
+    cab = (('c', 'a', 'b'), (4, 2, 3))
+    out.append(("3-d ['c', 'a', 'b'], set ['a', 'c']", lambda: ([A(P, *cab), {'a', 'c'}], {}, OPTS(P))))
+    out.append(("3-d ['c', 'a', 'b'], set ['a', 'b', 'c']", lambda: ([A(P, *cab), {'a', 'b', 'c'}], {}, OPTS(P))))
+    out.append(("3-d ['c', 'a', 'b'], tuple ['a', 'c']", lambda: ([A(P, *cab), ('a', 'c')], {}, OPTS(P))))
     return out
 
 
